@@ -338,8 +338,8 @@ def _engine_box(ctx, sh):
     system.vel_rev = False
     try:
         calc = lambda s, **k: ibase.EngineBase.calculate_order(eng, s, **k)
-        first = calc(system, xyz=pos, vel=vel, box=mk(LA))
-        boxB = mk(LB)
+        system.box = mk(LA)          # the box of the previous frame (set directly: computing an order parameter with it
+        boxB = mk(LB)                #  would only multiply the wrap patterns of the two boxes)
         second = calc(system, xyz=pos, vel=vel, box=boxB)
         fresh = System()
         fresh.vel_rev = False
